@@ -503,6 +503,44 @@ pub fn verify_dir(case: &DirCase, inst: &Installed, pack: &Arc<jbk::reader::Dire
                 }
             }
         }
+        // the index converted to a plain range (`EntryRange::from(&index)`) is the same window: same bounds, same entries at its
+        // first, middle and last position, nothing at `count`
+        let range = jbk::EntryRange::from(&index);
+        if range.count().into_u32() != ix.count || range.offset().into_u32() != ix.offset {
+            bad!(
+                "converted-range-window",
+                format!("index {} (offset {} count {}) converted to an EntryRange exposes offset {} count {}", ix.name, ix.offset, ix.count, range.offset().into_u32(), range.count().into_u32()),
+                json!({"offset_is_zero": ix.offset == 0})
+            );
+        } else {
+            let mut at: Vec<u32> = vec![];
+            if ix.count > 0 {
+                at.extend([0, ix.count / 2, ix.count - 1]);
+            }
+            for i in at {
+                let a = index.get_entry(&builder, jbk::EntryIdx::from(i));
+                let b = range.get_entry(&builder, jbk::EntryIdx::from(i));
+                let ra = a.map_err(|e| e.to_string()).and_then(|e| e.ok_or("None".to_string())).and_then(|e| read_entry(&e, &vnames, &all_names));
+                let rb = b.map_err(|e| e.to_string()).and_then(|e| e.ok_or("None".to_string())).and_then(|e| read_entry(&e, &vnames, &all_names));
+                match (ra, rb) {
+                    (Ok(x), Ok(y)) if x.variant == y.variant && x.vals == y.vals => out.obs.inc("entries_compared_through_converted_range"),
+                    (Ok(_), Ok(_)) => {
+                        bad!("converted-range-entry", format!("index {} entry {i}: the EntryRange converted from the index returns another entry", ix.name), json!({}));
+                    }
+                    (Ok(_), Err(e)) => {
+                        bad!("converted-range-entry", format!("index {} entry {i}: the EntryRange converted from the index answers {e}", ix.name), json!({}));
+                    }
+                    _ => {}
+                }
+            }
+            match range.get_entry(&builder, jbk::EntryIdx::from(ix.count)) {
+                Ok(None) => out.obs.inc("past_window_probes"),
+                Ok(Some(_)) => {
+                    bad!("past-window", format!("the EntryRange converted from index {} (count {}) returns an entry for id {}", ix.name, ix.count, ix.count), json!({"probe_minus_count": 0}));
+                }
+                Err(_) => {}
+            }
+        }
     }
     if opts.handles {
         for (si, hs) in inst.handles.iter().enumerate() {
